@@ -21,3 +21,4 @@ def run(ck):
     traps.r15_edge_offset_in_wide_type(ck, P)
     traps.r16_full_destination_box_in_trap_space(ck, P)
     traps.r17_extents_follow_the_lines(ck, P)
+    traps.r18_error_term_interval_is_closed(ck, P)
